@@ -228,6 +228,16 @@ func (jenny RawTypes) generateConstructor(buffer *strings.Builder, context langu
 }
 
 func (jenny RawTypes) defaultsForStruct(context languages.Context, objectRef ast.RefType, objectType ast.Type, maybeExtraDefaults any) string {
+	return jenny.defaultsForStructRec(context, objectRef, objectType, maybeExtraDefaults, map[ast.RefType]struct{}{})
+}
+
+// describing holds the structs being described: a field carrying a default
+// can refer to the struct it belongs to (`next: Node` with a default), in
+// which case describing the default of the field would never end.
+func (jenny RawTypes) defaultsForStructRec(context languages.Context, objectRef ast.RefType, objectType ast.Type, maybeExtraDefaults any, describing map[ast.RefType]struct{}) string {
+	describing[objectRef] = struct{}{}
+	defer delete(describing, objectRef)
+
 	var buffer strings.Builder
 
 	objectName := formatObjectName(objectRef.ReferredType)
@@ -296,7 +306,13 @@ func (jenny RawTypes) defaultsForStruct(context languages.Context, objectRef ast
 
 			defaultValue = jenny.maybeValueAsPointer(defaultValue, field.Type.Nullable, resolvedFieldType)
 		} else if field.Type.IsRef() && resolvedFieldType.IsStruct() && field.Type.Default != nil {
-			defaultValue = jenny.defaultsForStruct(context, *field.Type.Ref, resolvedFieldType, field.Type.Default)
+			if _, recursive := describing[*field.Type.Ref]; recursive {
+				// the default of a field referring to a struct being described
+				// already: left out (the zero value is used)
+				continue
+			}
+
+			defaultValue = jenny.defaultsForStructRec(context, *field.Type.Ref, resolvedFieldType, field.Type.Default, describing)
 			if field.Type.Nullable {
 				defaultValue = "&" + defaultValue
 			}
